@@ -18,7 +18,7 @@ import (
 func TestMain(m *testing.M) { vMain(m, nil) }
 
 type c18Op struct {
-	Op string `json:"op"` // write read readmult readall discard discardall
+	Op string `json:"op"` // write read readmult readall discard discardall recreate
 	N  int    `json:"n"`
 }
 
@@ -72,6 +72,10 @@ func c18Gen(t *rapid.T) c18Case {
 		default:
 			ops[i] = c18Op{"discardall", 0}
 		}
+		if rapid.IntRange(0, 24).Draw(t, "recreate") == 0 {
+			// the writing process goes away without unlinking and a new one creates the ring again under the same names
+			ops[i] = c18Op{"recreate", rapid.IntRange(0, 1).Draw(t, "reopen")}
+		}
 	}
 	return c18Case{Size: size, Ops: ops}
 }
@@ -83,15 +87,16 @@ func c18Run(c c18Case) (v vVerdict) {
 	if err := wr.Create(c.Size); err != nil {
 		panic("harness: create: " + err.Error())
 	}
-	defer wr.Unlink()
-	defer wr.Close()
+	defer func() { wr.Close(); wr.Unlink() }()
 	rd, _ := NewRingBuffer(name+"_raw", name+"_desc")
 	if err := rd.Open(); err != nil {
 		panic("harness: open: " + err.Error())
 	}
-	defer rd.Close()
+	defer func() { rd.Close() }()
 
-	var W, R uint64
+	var W, R uint64 // positions counted from the last Create
+	var salt uint64 // makes the byte pattern of each life of the ring different
+	recreated := false
 	size := uint64(c.Size)
 	wrapped, fullOrEmpty, everData := false, false, false
 	checkRead := func(step int, what string, data []byte) *vVerdict {
@@ -101,9 +106,9 @@ func c18Run(c c18Case) (v vVerdict) {
 			return &f
 		}
 		for i := uint64(0); i < m; i++ {
-			if data[i] != c18Pattern(R+i) {
+			if data[i] != c18Pattern(salt+R+i) {
 				f := vFailf("fifo-mismatch", "step %d %s: byte %d of read is %d, want %d (abs pos %d; R=%d W=%d size=%d)",
-					step, what, i, data[i], c18Pattern(R+i), R+i, R, W, size)
+					step, what, i, data[i], c18Pattern(salt+R+i), R+i, R, W, size)
 				return &f
 			}
 		}
@@ -126,7 +131,7 @@ func c18Run(c c18Case) (v vVerdict) {
 		case "write":
 			data := make([]byte, op.N)
 			for i := range data {
-				data[i] = c18Pattern(W + uint64(i))
+				data[i] = c18Pattern(salt + W + uint64(i))
 			}
 			n, err := wr.Write(data)
 			if err != nil {
@@ -189,6 +194,25 @@ func c18Run(c c18Case) (v vVerdict) {
 			if uint64(len(cp)) != avail {
 				return vFailf("readall-short", "step %d ReadAll returned %d of %d readable", step, len(cp), avail)
 			}
+		case "recreate":
+			// A ring that Create has just returned is empty, whatever an earlier life left in the shared memory.
+			wr.Close()
+			wr, _ = NewRingBuffer(name+"_raw", name+"_desc")
+			if err := wr.Create(c.Size); err != nil {
+				return vFailf("recreate-error", "step %d: Create on the existing shared memory: %v", step, err)
+			}
+			if op.N == 1 {
+				rd.Close()
+				rd, _ = NewRingBuffer(name+"_raw", name+"_desc")
+				if err := rd.Open(); err != nil {
+					return vFailf("recreate-error", "step %d: Open after re-creation: %v", step, err)
+				}
+			}
+			salt += 1000003
+			if W != R || W > 0 {
+				recreated = true
+			}
+			W, R = 0, 0
 		case "discard", "discardall":
 			k := uint64(op.N)
 			var err error
@@ -248,6 +272,9 @@ func c18Run(c c18Case) (v vVerdict) {
 	}
 	if fullOrEmpty {
 		v.Classes = append(v.Classes, "exactly-full-or-empty")
+	}
+	if recreated {
+		v.Classes = append(v.Classes, "recreated-after-use")
 	}
 	for _, op := range c.Ops {
 		if op.Op == "discard" {
